@@ -18,7 +18,7 @@ from hv import Case
 from props import c16
 
 SPEC = {
-    "lean_modules": ["Honeycomb.Props.C17", "Honeycomb.Props.C17Surf", "Honeycomb.Props.C16Grid", "Honeycomb.Props.C16EdgeInsert"],
+    "lean_modules": ["Honeycomb.Props.C17", "Honeycomb.Props.C17Surf", "Honeycomb.Props.C16Grid", "Honeycomb.Props.C16EdgeInsert", "Honeycomb.Props.C16Chain"],
     "gen": ["anchors"],
     "required_theorems": [
         "C17_classify_frame", "C17_classify_WF", "C17_classify_ok_all_anchored",
@@ -30,7 +30,7 @@ SPEC = {
         "C17_vertex_merge_comm", "C17_vertex_merge_idem", "C17_vertex_merge_assoc", "C17_vertex_merge_lower_dim",
         "C17_vertex_merge_fails_iff", "C17_edge_merge_fails_iff", "C17_face_merge_fails_iff",
         "C16_shift_loop_terminates", "C16_shift_loop_exit", "C17_no_vertex_on_grid_line",
-        "C16_insertOneEdge_shape", "C16_insert_edges_inv",
+        "C16_insertOneEdge_shape", "C16_insert_edges_inv", "C16_poi_are_vertices", "C17_poi_are_node_vertices",
     ],
     "trusted_base": [
         "Lean 4.33 kernel; axioms propext, Classical.choice, Quot.sound only",
@@ -82,6 +82,12 @@ SPEC = {
         "theorem chaining capture + classify; that the node ids (= edge indices, which depend on the HashMap order of step 4) separate "
         "distinct points of interest of one edge (they do not: all points of interest of one new edge share Node(i) — what the kernel does, "
         "the C17 statement only asks for `anchored to a node`)",
+        "THE CHAIN for capture (Props/C16Chain.lean, C17_poi_are_node_vertices): for the modelled capture pipeline (steps 1-5 with the anchor "
+        "storages, both HashMap orders arbitrary), if the run succeeds every point of interest lying on a chain between two crossings is the "
+        "coordinate of a vertex of the result and that vertex is anchored VertexAnchor::Node(j). Named hypotheses (satisfiable example, "
+        "evaluated by the `whole capture pipeline` tie): success of the run, KeysOK, EdgeDartsInUse, OnChain (false exactly for the loops inside "
+        "one cell of D17a); well-formedness and absence of tags after step 3 are proved. NOT proved: that every point of interest of a closed "
+        "loop crossing a grid line satisfies OnChain; the chain through clip + classify_capture as one theorem",
         "C17_classify_asserts_never_fire: that the three debug_assert!s of classify_capture cannot fail on capture outputs "
         "(C17_classify_ok_all_anchored is the statement WITH the assertions, as in the debug build the harness runs). It is "
         "false on arbitrary well-formed maps: a dangling edge inside a face leaves its tip vertex unanchored and the debug "
